@@ -42,6 +42,48 @@ def _child(arg):
     return {"out": out, "trace": fsshim.trace() if mode else None, "log": vlog.snapshot()}
 
 
+def _child_other_codecs(arg):
+    """Forked child: a process in which another codec has priority for the built-in result types (registered by the
+    user before the store is used) runs the action and then loads the given paths."""
+    action, root, loads = arg
+    import logging
+
+    logging.disable(logging.CRITICAL)
+    import dds
+    from dds.codec import codec_registry
+    from checks import c17
+    from vp import vlog
+
+    dds.accept_module("checks")
+    vlog.clear()
+    _, _, GreedyFileCodec, GreedyCodec = c17._mk_codecs()
+    codec_registry().add_file_codec(GreedyFileCodec())
+    codec_registry().add_codec(GreedyCodec())
+    out = {}
+    try:
+        out["action"] = ("ok", action(root))
+    except BaseException as e:
+        out["action"] = ("exc", type(e).__name__, str(e)[:300])
+    out["loads"] = {}
+    for (path, view) in loads:
+        try:
+            out["loads"][(path, view)] = ("ok", scen.act_load(path, view)(root))
+        except BaseException as e:
+            out["loads"][(path, view)] = ("exc", type(e).__name__, str(e)[:200])
+    return out
+
+
+def _orphan_blobs(run):
+    """Blob files without their metadata file (what a writer killed between the two renames leaves)."""
+    n = 0
+    for dirpath, dirnames, filenames in os.walk(run):
+        if os.path.basename(dirpath) == "blobs":
+            for fn in filenames:
+                if not fn.startswith(".") and not fn.endswith(".meta") and fn + ".meta" not in filenames:
+                    n += 1
+    return n
+
+
 def _real_process_main():
     """Entry point of a real interpreter (used under strace): runs the action of scenario <index> on <root>."""
     import sys
@@ -223,6 +265,23 @@ def scenario_job(arg):
             def bad(what, mech):
                 rep.violate("%s, killed before op %d (%s %s): %s" % (sc["name"], n, rkind, rrel if len(rrel) < 70 else rrel[:30] + ".." + rrel[-24:], what), case, mechanism=mech, features=feats)
 
+            if _orphan_blobs(run) and not sc["recover_extra"]:
+                # the recovering process may select other codecs than the killed one: blob and metadata must still agree
+                saved = os.path.join(td, "saved")
+                shutil.copytree(run, saved, symlinks=True)
+                g = core.fork_call(_child_other_codecs, (sc["action"], run, sorted(sc["after"])), timeout=120)
+                rep.count("recoveries_with_other_codecs")
+                if isinstance(g, core.JobFailed):
+                    rep.inconclusive.append("recovery (other codecs) worker failed: %r" % (g,))
+                elif g["action"][0] != "ok" or not _eq(g["action"][1], tr["out"][1]):
+                    bad("re-evaluation by a process with other codecs registered gives %s" % (_short(g["action"][1]) if g["action"][0] == "ok" else "%s(%s)" % g["action"][1:3],), "recovery-other-codecs:%s:%s" % (rkind, file_class(rrel)))
+                else:
+                    for key_, lv in g["loads"].items():
+                        if lv[0] != "ok" or not _eq(lv[1], sc["after"][key_]):
+                            bad("after re-evaluation by a process with other codecs registered load(%s) gives %s" % (key_[0], _short(lv[1]) if lv[0] == "ok" else "%s(%s)" % lv[1:3]), "recovery-other-codecs:%s:%s" % (rkind, file_class(rrel)))
+                            break
+                shutil.rmtree(run, ignore_errors=True)
+                os.rename(saved, run)
             _recover(sc, run, rep, tr["out"][1], bad, rkind, rrel, ("c06", sc["name"], n))
             shutil.rmtree(run, ignore_errors=True)
     st = rep.extra.pop("_states", set())
@@ -374,7 +433,7 @@ def run(tier, seed):
     scs = scenarios()
     rep.rule = (
         "scenarios %r; for each, every file-system operation boundary of the action (stat, lstat, readlink, mkdir, open, each half of each write, close, remove, rename, symlink, listdir; counted by a dry run under "
-        "the shim) is a crash point: the process is terminated with os._exit(137) right before it, then fresh processes load the previously committed paths, re-evaluate the pipeline and load everything. "
+        "the shim) is a crash point: the process is terminated with os._exit(137) right before it, then fresh processes load the previously committed paths, re-evaluate the pipeline and load everything; where the kill left a blob without metadata a process with other codecs registered recovers as well. "
         "Real SIGKILLs injected by strace on entering each mutating system call of a real interpreter process: three scenarios in the quick tier, all in the thorough tier. Thorough adds a second kill at every boundary of the recovery evaluation (for every 4th first crash point). "
         "distinct_nontrivial = crash points whose recovery was fully observed and correct." % ([s["name"] for s in scs],)
     )
